@@ -37,121 +37,258 @@ def _text(s):
     return _nats(ord(c) for c in s)
 
 
-def _stop_of(node, P):
-    """stop set of a repeated 'anything but ...' item: list of code points that end the run"""
+def _class_stop(node, P, flags):
+    """the finite set of code points that one character-class item does NOT match (what ends a run of it), as a
+    sorted list; raises ValueError when that set is not finite / not readable"""
     op, av = node
     if op is P.NOT_LITERAL:
         return [av]
     if op is P.ANY:
-        return None  # decided by DOTALL
+        return [] if (flags & re.DOTALL) else [10]
     if op is P.IN:
         if not av or av[0][0] is not P.NEGATE:
             raise ValueError('character class is not negated: %r' % (av,))
-        out = []
+        out = set()
         for o, a in av[1:]:
-            if o is not P.LITERAL:
+            if o is P.LITERAL:
+                out.add(a)
+            elif o is P.RANGE and a[1] - a[0] < 64:
+                out.update(range(a[0], a[1] + 1))
+            else:
                 raise ValueError('unsupported class member %r' % ((o, a),))
-            out.append(a)
-        return out
+        return sorted(out)
     raise ValueError('unsupported repeated item %r' % (node,))
 
 
-def url_re_shape(urlutils):
-    """structural read-out of _URL_RE; raises ValueError when the shape differs from
-       ^((scheme[^..]+):)?((//)(authority[^..]*))?(path[^..]*)(\\?(query[^..]*))?(#(fragment.*))?"""
+URL_RE_GROUPS = ('scheme', '_netloc_sep', 'authority', 'path', 'query', 'fragment')
+
+
+def _normal_form(rx):
+    """_URL_RE as a nested list in which everything the consumers cannot observe is erased: unnamed groups
+    (capturing or not) are spliced into their surroundings, a leading '^' / '\\A' is dropped (the pattern is only
+    used with .match), a run of a character class becomes ('run', lo, stop set).  What is left:
+    ('lit', c) | ('run', lo, [stop...]) | ('named', name, [...]) | ('opt', [...])"""
     import re._parser as P
-    rx = urlutils._URL_RE
     tree = P.parse(rx.pattern, rx.flags)
-    gd = tree.state.groupdict
+    flags = tree.state.flags
+    if flags & (re.IGNORECASE | re.MULTILINE | re.VERBOSE | re.ASCII | re.LOCALE):
+        raise ValueError('unexpected regex flags %r' % flags)
+    names = {g: n for n, g in tree.state.groupdict.items()}
+
+    def seq(items):
+        out = []
+        for node in items:
+            op, av = node
+            if op is P.LITERAL:
+                out.append(('lit', av))
+            elif op is P.SUBPATTERN:
+                g, add, dele, body = av
+                if add or dele:
+                    raise ValueError('inline flags in a group')
+                if g is not None and g in names:
+                    out.append(('named', names[g], seq(body)))
+                else:
+                    out.extend(seq(body))       # unnamed: nobody reads numbered groups (groupdict() only)
+            elif op is P.MAX_REPEAT:
+                lo, hi, body = av
+                body = list(body)
+                if hi == 1 and lo == 0:
+                    out.append(('opt', seq(body)))
+                elif hi == P.MAXREPEAT and lo in (0, 1):
+                    inner = body
+                    while len(inner) == 1 and inner[0][0] is P.SUBPATTERN and inner[0][1][0] not in names \
+                            and not inner[0][1][1] and not inner[0][1][2]:
+                        inner = list(inner[0][1][3])
+                    if len(inner) != 1:
+                        raise ValueError('repeat of more than one item')
+                    out.append(('run', lo, _class_stop(inner[0], P, flags)))
+                else:
+                    raise ValueError('unsupported repeat %r' % ((lo, hi),))
+            elif op is P.IN and len(av) == 1 and av[0][0] is P.LITERAL:
+                out.append(('lit', av[0][1]))   # a one-character class, e.g. [?]
+            else:
+                raise ValueError('unsupported regex item %r' % (node,))
+        return out
+
     items = list(tree)
-    if rx.flags & (re.IGNORECASE | re.MULTILINE | re.VERBOSE | re.ASCII):
-        raise ValueError('unexpected regex flags %r' % rx.flags)
+    while items and items[0][0] is P.AT and items[0][1] in (P.AT_BEGINNING, P.AT_BEGINNING_STRING):
+        items = items[1:]
+    return seq(items)
 
-    def lit(node, ch):
-        if node[0] is not P.LITERAL or node[1] != ord(ch):
-            raise ValueError('expected literal %r, found %r' % (ch, node))
 
-    def sub(node, name=None):
-        if node[0] is not P.SUBPATTERN:
-            raise ValueError('expected group, found %r' % (node,))
-        g, _a, _b, body = node[1]
-        if name is not None and gd.get(name) != g:
-            raise ValueError('group %r is not where expected' % name)
-        return list(body)
+def url_re_structure(urlutils):
+    """the five stop sets, read from the structure of _URL_RE (valid for ALL code points); raises ValueError when the
+    normal form is not  (scheme+ ':')? ('//' authority*)? path* ('?' query*)? ('#' fragment*)?"""
+    nf = _normal_form(urlutils._URL_RE)
+    want = [('opt', [('named', 'scheme', [('run', 1, 'schemeStop')]), ('lit', ord(':'))]),
+            ('opt', [('named', '_netloc_sep', [('lit', ord('/')), ('lit', ord('/'))]),
+                     ('named', 'authority', [('run', 0, 'authStop')])]),
+            ('named', 'path', [('run', 0, 'pathStop')]),
+            ('opt', [('lit', ord('?')), ('named', 'query', [('run', 0, 'queryStop')])]),
+            ('opt', [('lit', ord('#')), ('named', 'fragment', [('run', 0, 'fragStop')])])]
+    got = {}
 
-    def opt(node):
-        if node[0] is not P.MAX_REPEAT or node[1][0] != 0 or node[1][1] != 1:
-            raise ValueError('expected optional group, found %r' % (node,))
-        body = list(node[1][2])
-        if len(body) != 1:
-            raise ValueError('optional item is not a single group')
-        return body[0]
+    def unify(w, g, where):
+        if isinstance(w, list):
+            if not isinstance(g, list) or len(w) != len(g):
+                raise ValueError('regex shape differs at %s: %r' % (where, g))
+            for i, (a, b) in enumerate(zip(w, g)):
+                unify(a, b, '%s.%d' % (where, i))
+            return
+        if w[0] != g[0]:
+            raise ValueError('regex shape differs at %s: expected %s, found %r' % (where, w[0], g))
+        if w[0] == 'lit':
+            if w[1] != g[1]:
+                raise ValueError('literal differs at %s: %r' % (where, g))
+        elif w[0] == 'run':
+            if w[1] != g[1]:
+                raise ValueError('repeat bound differs at %s: %r' % (where, g))
+            got[w[2]] = g[2]
+        elif w[0] == 'named':
+            if w[1] != g[1]:
+                raise ValueError('group differs at %s: %r' % (where, g[1]))
+            unify(w[2], g[2], where + '.' + w[1])
+        else:
+            unify(w[1], g[1], where + '.opt')
+    unify(want, nf, 're')
+    return got
 
-    def rep(node, lo):
-        if node[0] is not P.MAX_REPEAT or node[1][0] != lo or node[1][1] != P.MAXREPEAT:
-            raise ValueError('expected greedy repeat from %d, found %r' % (lo, node))
-        body = list(node[1][2])
-        if len(body) != 1:
-            raise ValueError('repeat of more than one item')
-        return _stop_of(body[0], P)
 
-    if len(items) != 6 or items[0] != (P.AT, P.AT_BEGINNING):
-        raise ValueError('top-level shape changed: %d items' % len(items))
-    b = sub(opt(items[1]))
-    if len(b) != 2:
-        raise ValueError('scheme group shape')
-    sb = sub(b[0], 'scheme')
-    if len(sb) != 1:
-        raise ValueError('scheme body shape')
-    scheme_stop = rep(sb[0], 1)
-    lit(b[1], ':')
-    b = sub(opt(items[2]))
-    if len(b) != 2:
-        raise ValueError('authority group shape')
-    ns = sub(b[0], '_netloc_sep')
-    if len(ns) != 2:
-        raise ValueError('netloc separator shape')
-    lit(ns[0], '/')
-    lit(ns[1], '/')
-    ab = sub(b[1], 'authority')
-    if len(ab) != 1:
-        raise ValueError('authority body shape')
-    auth_stop = rep(ab[0], 0)
-    pb = sub(items[3], 'path')
-    if len(pb) != 1:
-        raise ValueError('path body shape')
-    path_stop = rep(pb[0], 0)
-    b = sub(opt(items[4]))
-    if len(b) != 2:
-        raise ValueError('query group shape')
-    lit(b[0], '?')
-    qb = sub(b[1], 'query')
-    if len(qb) != 1:
-        raise ValueError('query body shape')
-    query_stop = rep(qb[0], 0)
-    b = sub(opt(items[5]))
-    if len(b) != 2:
-        raise ValueError('fragment group shape')
-    lit(b[0], '#')
-    fb = sub(b[1], 'fragment')
-    if len(fb) != 1:
-        raise ValueError('fragment body shape')
-    frag_stop = rep(fb[0], 0)
-    if frag_stop is None:
-        frag_stop = [] if (rx.flags & re.DOTALL) else [10]
-    for s in (scheme_stop, auth_stop, path_stop, query_stop):
-        if s is None:
-            raise ValueError('"." outside the fragment group')
-    return {'schemeStop': scheme_stop, 'authStop': auth_stop, 'pathStop': path_stop,
-            'queryStop': query_stop, 'fragStop': frag_stop}
+def url_splitter(urlutils):
+    """text -> the six groups as the CODE sees them (None = no match): `_URL_RE.match(t).groupdict()`, or - when
+    there is no such regex object any more - what `parse_url` returns under the same keys"""
+    rx = getattr(urlutils, '_URL_RE', None)
+    if rx is not None and hasattr(rx, 'match'):
+        def split(t):
+            m = rx.match(t)
+            return None if m is None else {k: m.groupdict().get(k) for k in URL_RE_GROUPS}
+        return split
+
+    def split2(t):
+        try:
+            d = urlutils.parse_url(t)
+        except urlutils.URLParseError:
+            return None
+        return {k: d.get(k) for k in URL_RE_GROUPS}
+    return split2
+
+
+def url_re_probe(split):
+    """fallback when the structure cannot be read: the stop set of each group, determined by putting EVERY code point
+    (all 0x110000 of them - the theorems quantify over all texts) into a run of that group: a block of code points that
+    the group swallows whole contains no stop character, a block that it does not is halved until the culprits are
+    single characters"""
+    probes = {'schemeStop': ('a%sa:', 'scheme', 'a%sa'), 'authStop': ('//a%sa@h', 'authority', 'a%sa@h'),
+              'pathStop': ('/a%sa', 'path', '/a%sa'), 'queryStop': ('?a%sa', 'query', 'a%sa'),
+              'fragStop': ('#a%sa', 'fragment', 'a%sa')}
+    out = {}
+    for key, (tmpl, group, want) in probes.items():
+        stops = []
+
+        def swallowed(lo, hi):
+            block = ''.join(map(chr, range(lo, hi)))
+            g = split(tmpl.replace('%s', block))
+            return g is not None and g[group] == want.replace('%s', block)
+
+        def find(lo, hi):
+            if swallowed(lo, hi):
+                return
+            if hi - lo == 1:
+                stops.append(lo)
+                if len(stops) > 64:
+                    raise ValueError('group %r stops at more than 64 different characters' % group)
+                return
+            mid = (lo + hi) // 2
+            find(lo, mid)
+            find(mid, hi)
+        find(0, 0x110000)
+        out[key] = stops
+    return out
+
+
+def ref_split(t, S):
+    """the scanner of the Lean model (schemeOf / authorityOf / pathOf / queryOf / fragmentOf), in Python"""
+    def run(s, stop):
+        k = 0
+        while k < len(s) and ord(s[k]) not in stop:
+            k += 1
+        return s[:k], s[k:]
+    head, rest = run(t, S['schemeStop'])
+    if head and rest[:1] == ':':
+        scheme, r = head, rest[1:]
+    else:
+        scheme, r = None, t
+    if r[:2] == '//':
+        ns = '//'
+        auth, r = run(r[2:], S['authStop'])
+    else:
+        ns, auth = None, None
+    path, r = run(r, S['pathStop'])
+    query = frag = None
+    if r[:1] == '?':
+        query, r = run(r[1:], S['queryStop'])
+    if r[:1] == '#':
+        frag, r = run(r[1:], S['fragStop'])
+    return {'scheme': scheme, '_netloc_sep': ns, 'authority': auth, 'path': path, 'query': query, 'fragment': frag}
+
+
+def url_re_shape(urlutils):
+    """the five stop sets of the URL scanner.  (1) read from the structure of whatever pattern `_URL_RE` has now
+    (unnamed / non-capturing groups, a dropped '^', ranges and one-character classes are all the same to it);
+    if that is not possible, (2) determined by probing the scanner with every code point.  Either way the result is
+    then (3) validated: the scanner of the Lean model, run in Python with these sets, must split every text of
+    length <= 4 over the separators (+ a letter, line breaks, a non-ASCII character) exactly as the code does."""
+    split = url_splitter(urlutils)
+    try:
+        shape = url_re_structure(urlutils)
+        how = 'structure'
+    except Exception as e:       # no regex / another shape: ask the scanner itself
+        shape = url_re_probe(split)
+        how = 'probing (structure not readable: %s)' % (e,)
+    alpha = sorted(set(':/?#@a[]\n\r \xe9%') | {chr(c) for v in shape.values() for c in v})
+    for n in range(0, 5):
+        for tup in itertools.product(alpha, repeat=n):
+            t = ''.join(tup)
+            if split(t) != ref_split(t, shape):
+                raise ValueError('URL scanner (%s) is not the five-run scanner of the model on %r: %r vs %r'
+                                 % (how, t, split(t), ref_split(t, shape)))
+    shape['how'] = how
+    return shape
+
+
+def hex_pairs_by_probing(urlutils):
+    """what `unquote_to_bytes` really decodes: every (a, b, v) with unquote_to_bytes(b'%' + bytes([a, b])) == bytes([v]),
+    over all 65536 byte pairs - the function is asked, not the table it happens to use"""
+    f = urlutils.unquote_to_bytes
+    ents = []
+    for a in range(256):
+        for b in range(256):
+            if a == 37 or b == 37:
+                continue          # a second '%' starts a new item: covered by the model's step function itself
+            src = bytes([37, a, b])
+            try:
+                r = f(src)
+            except Exception:
+                continue          # (reported by the oracle on the unquote cases)
+            if r != src:
+                if len(r) != 1:
+                    raise ValueError('unquote_to_bytes(%r) = %r' % (src, r))
+                ents.append((a, b, r[0]))
+    return ents
 
 
 def quote_map_rows(qmap):
+    """the 256 rows of a quote map (object evaluated, however it was built): keyed by byte value, by one-character
+    string, or - as in the code as it stands - by both, in which case the two must agree"""
     rows = []
+    missing = object()
     for b in range(256):
-        if qmap[b] != qmap[chr(b)]:
+        vi, vc = qmap.get(b, missing), qmap.get(chr(b), missing)
+        if vi is missing and vc is missing:
+            raise ValueError('quote map has no entry for byte %d' % b)
+        if vi is not missing and vc is not missing and vi != vc:
             raise ValueError('quote map differs between int key %d and char key' % b)
-        rows.append(qmap[b])
+        rows.append(vc if vi is missing else vi)
     extra = [k for k in qmap if not ((isinstance(k, int) and 0 <= k < 256)
                                      or (isinstance(k, str) and len(k) == 1 and ord(k) < 256))]
     if extra:
@@ -178,12 +315,11 @@ def generate_tables(U):
             raise ValueError('delimiter set member is not one character')
         out.append('def %s : List Nat := %s' % (name, _nats(sorted(ord(c) for c in ds))))
     out.append('')
-    ents = []
-    for k, v in sorted(U._HEX_CHAR_MAP.items()):
-        if len(k) != 2 or len(v) != 1:
-            raise ValueError('hex map entry %r -> %r' % (k, v))
-        ents.append('(%d, %d, %d)' % (k[0], k[1], v[0]))
-    out.append('/-- `_HEX_CHAR_MAP`: (first byte, second byte, decoded byte) -/')
+    ents = ['(%d, %d, %d)' % e for e in hex_pairs_by_probing(U)]
+    if not ents:
+        raise ValueError('unquote_to_bytes decodes nothing')
+    out.append('/-- what `unquote_to_bytes` decodes (`_HEX_CHAR_MAP` in the code as it stands), obtained by calling it on `%ab` for all')
+    out.append('    65536 byte pairs: (first byte, second byte, decoded byte) -/')
     out.append('def hexMap : List (Nat × Nat × Nat) := [')
     for i in range(0, len(ents), 11):
         out.append('  ' + ', '.join(ents[i:i + 11]) + (',' if i + 11 < len(ents) else ''))
@@ -208,12 +344,17 @@ def generate_tables(U):
     for k in ('schemeStop', 'authStop', 'pathStop', 'queryStop', 'fragStop'):
         out.append('def %s : List Nat := %s' % (k, _nats(shape[k])))
     out.append('')
-    zeros, spaces = int_tables()
-    out.append('/- what the builtin `int()` (called on the port text by parse_url) accepts besides ASCII digits, read from')
-    out.append('   the running interpreter (unicodedata) and probed against int() itself: the code point of the zero of')
-    out.append('   every run of ten decimal digits (category Nd), and the characters stripped as white space -/')
-    out.append('def decimalZeros : List Nat := ' + _nats(zeros))
-    out.append('def intSpaces : List Nat := ' + _nats(spaces))
+    pr = port_reader_params(U)
+    out.append('/- the port reader of parse_url (in the code as it stands: the builtin `int()`), as five parameters obtained')
+    out.append('   by PROBING parse_url: which of the decimal-digit runs the interpreter knows (unicodedata, category Nd; listed')
+    out.append('   by their zero) are read as digits in a port, which of the characters `int()` strips are stripped, whether a')
+    out.append('   leading ASCII `+` / `-` and single underscores between digits are accepted.  The reader with these')
+    out.append('   parameters was then compared with parse_url on ~1500 port texts (every Unicode numeric / space class). -/')
+    out.append('def portZeros : List Nat := ' + _nats(pr['zeros']))
+    out.append('def portSpaces : List Nat := ' + _nats(pr['spaces']))
+    out.append('def portPlus : Bool := %s' % ('true' if pr['plus'] else 'false'))
+    out.append('def portMinus : Bool := %s' % ('true' if pr['minus'] else 'false'))
+    out.append('def portUnderscore : Bool := %s' % ('true' if pr['underscore'] else 'false'))
     out.append('')
     out.append('end C06.Gen')
     return '\n'.join(out) + '\n'
@@ -267,6 +408,92 @@ def int_tables():
         raise ValueError('a decimal digit outside the runs of ten')
     _INT_TABLES = (zeros, spaces)
     return _INT_TABLES
+
+
+def ref_port_reader(s, pr):
+    """the port reader of the Lean model (`pyInt?` with the generated parameters), in Python: int or None"""
+    zeros, spaces = pr['zeros'], pr['spaces']
+
+    def dv(ch):
+        c = ord(ch)
+        for z in zeros:
+            if z <= c < z + 10:
+                return c - z
+        return None
+    i, j = 0, len(s)
+    while i < j and ord(s[i]) in spaces:
+        i += 1
+    while j > i and ord(s[j - 1]) in spaces:
+        j -= 1
+    s = s[i:j]
+    sign = 1
+    if s[:1] == '+':
+        if not pr['plus']:
+            return None
+        s = s[1:]
+    elif s[:1] == '-':
+        if not pr['minus']:
+            return None
+        s, sign = s[1:], -1
+    if not s or dv(s[0]) is None:
+        return None
+    acc = 0
+    for k, ch in enumerate(s):
+        d = dv(ch)
+        if d is not None:
+            acc = acc * 10 + d
+        elif ch == '_' and pr['underscore'] and k + 1 < len(s) and dv(s[k + 1]) is not None:
+            continue
+        else:
+            return None
+    return sign * acc
+
+
+def port_probe_texts():
+    """the finite family of port spellings on which the parametrised reader must explain parse_url"""
+    fam = numeric_family()
+    out = list(C06.PORT_TEXTS)
+    for ch in fam:
+        out += [ch, '8' + ch, ch + '0', ch + '8' + ch]
+    for ch in '\t\n\x0b\x0c\r \x1c\x1d\x1e\x1f\x85\xa0':
+        out += [ch + '5', '5' + ch, ch + '5' + ch, '5' + ch + '5']
+    return [t for t in dict.fromkeys(out) if t]
+
+
+def port_reader_params(U):
+    """How does the CURRENT parse_url read a port text?  The statement leaves that free (it only demands: a URL or
+    URLParseError), so the model takes it from the code: five parameters of an int()-like reader, determined by
+    probing parse_url, then validated on port_probe_texts().  A parse_url whose behaviour on ports is not of that
+    family (e.g. hexadecimal ports) raises ValueError here: the model does not describe it."""
+    def accepts(pt):
+        try:
+            return U.parse_url('//h:' + pt)['port']
+        except Exception:      # URLParseError - or anything else, which the oracle reports on the port cases
+            return None
+    all_zeros, all_spaces = int_tables()
+    zeros = []
+    for z in all_zeros:
+        got = [accepts(chr(z + i)) for i in range(10)]
+        if got == list(range(10)):
+            zeros.append(z)
+        elif any(g is not None for g in got):
+            raise ValueError('port digits at U+%04X are read as %r' % (z, got))
+    spaces = []
+    for c in all_spaces:
+        got = (accepts(chr(c) + '1'), accepts('1' + chr(c)), accepts(chr(c) + '1' + chr(c)))
+        if got == (1, 1, 1):
+            spaces.append(c)
+        elif got != (None, None, None):
+            raise ValueError('port white space U+%04X is stripped on one side only: %r' % (c, got))
+    pr = {'zeros': zeros, 'spaces': spaces, 'plus': accepts('+1') == 1, 'minus': accepts('-1') == -1,
+          'underscore': accepts('1_0') == 10}
+    if 48 not in zeros:
+        raise ValueError('parse_url does not read ASCII digits as a port')
+    for pt in port_probe_texts():
+        if accepts(pt) != ref_port_reader(pt, pr):
+            raise ValueError('parse_url reads the port text %r as %r, the parametrised reader %r as %r'
+                             % (pt, accepts(pt), pr, ref_port_reader(pt, pr)))
+    return pr
 
 
 # ============================================================================= RFC 3986 (oracle side)
@@ -581,8 +808,10 @@ class C06(Property):
                    'Lean theorems; in the correspondence the driver uses the NFC pairs supplied by the harness, a Lean '
                    'transliteration of glibc inet_pton, and the ASCII fast path of the idna codec; texts containing '
                    "'xn--' and full renderings of non-ASCII hosts are oracle-only",
-                   'the builtin int() (port text) is modelled: decimal digits of every script and the stripped white space '
-                   'come from tables regenerated from the running interpreter (unicodedata, probed against int()); the '
+                   'the port reader of parse_url (the builtin int() in the code as it stands) is modelled as an int()-like reader '
+                   'with five parameters (accepted decimal-digit runs, stripped white space, + sign, - sign, single underscores) that '
+                   'the translator determines by probing parse_url (candidates: the digits / white space the running interpreter knows, '
+                   'from unicodedata, themselves probed against int()) and validates on ~1500 port texts; the '
                    "interpreter's limit on the number of digits (sys.get_int_max_str_digits) is outside the model: "
                    'texts longer than 4000 characters are oracle-only',
                    'URL objects are independent values in the model; sharing between objects alive at the same time and '
@@ -834,7 +1063,9 @@ class C06(Property):
                 yield {'k': 'u', 't': '%' + a + b}
                 yield {'k': 'u', 't': 'x%' + b + a + 'y'}
         for t in UNQ_TOKENS + ['%e2%82%aC', '%E2%82%Ac', '%c3%A9', '%C3%a9', '%aB%Cd', '%+1', '% 1', '%1 ', '%-1', '%_1', '%0x', '%1_',
-                               '%\u0661\u0662', '%\uff21\uff11', '%4\u0661', '%%41', '%2541', '%\n41', '%41%', '%41%4', '%4%41']:
+                               '%\u0661\u0662', '%\uff21\uff11', '%4\u0661', '%%41', '%2541', '%\n41', '%41%', '%41%4', '%4%41',
+                               '%  ', '%  x', 'a%\t\tb', '% \n', '%\n\n', '%\r\n', '%\x0b\x0c', '%4 1', '% 41', '%4  1', '%  41',
+                               '%0x41', '%x41', '%4_1', '%+41', '%-41']:
             yield {'k': 'u', 't': t}
         # the order of repeated keys is part of what was put in
         for q in ([['a', '1'], ['b', '2'], ['a', '3']], [['b', None], ['a', ''], ['b', 'x'], ['a', None]],
@@ -1064,7 +1295,14 @@ class C06(Property):
         return self._descr(u)
 
     def _chain(self, URL, d):
-        return [d, self._stage(URL, d['tfull']), self._stage(URL, d['tmin'])]
+        """[d, URL(d.tfull), URL(d.tmin)].  When a re-parsed URL renders differently from the text it was parsed from
+        (never with the code as it stands; it would with a parser that normalises, e.g. lower-cases scheme and host), that
+        rendering is parsed and rendered once more ('re'): the fixed-point clause is about the rendering of a PARSED URL"""
+        d1, d2 = self._stage(URL, d['tfull']), self._stage(URL, d['tmin'])
+        for dd, key in ((d1, 'tfull'), (d2, 'tmin')):
+            if isinstance(dd, dict) and 'exc' not in dd and isinstance(dd[key], str) and dd[key] != d[key]:
+                dd['re'] = self._stage(URL, dd[key])
+        return [d, d1, d2]
 
     @staticmethod
     def _fresh_texts(mk):
@@ -1260,7 +1498,7 @@ class C06(Property):
     def _r_chain(self, ch):
         if len(ch) == 1:
             return self._r_descr(ch[0])
-        d0, d1, d2 = ch
+        d0, d1, d2 = ch[:3]
         if not d0['host'].isascii():
             d1 = None
         return ' | '.join([self._r_descr(d0), self._r_descr(d1), self._r_descr(d2)])
@@ -1343,8 +1581,7 @@ class C06(Property):
         bad = legal_text(full, RAW_LEGAL[c])
         if bad:
             return Failure('quote_legal', 'quote_%s_part(%r, full_quote=True) = %r: %s' % (c, t, full, bad))
-        if obs['default'] != full:
-            return Failure('quote_default', 'quote_%s_part(%r) default mode differs from full_quote=True' % (c, t))
+        # (which mode is the DEFAULT of the full_quote parameter is not something the statement fixes: not judged)
         if obs['unq'] != nfc(t):
             return Failure('unquote_quote', 'unquote(quote_%s_part(%r)) = %r, expected %r' % (c, t, obs['unq'], nfc(t)))
         if ref_unquote(full) != nfc(t):
@@ -1410,22 +1647,32 @@ class C06(Property):
             return Failure('quote_legal', 'to_text(full_quote=True) = %r: %s' % (tfull, bad))
         if d1 is None or 'exc' in d1:
             return Failure('roundtrip', 'URL(%r) raised %s' % (tfull, d1 and d1['exc']))
-        exp = {'scheme': case['scheme'], 'user': nfc(case['user']), 'pw': nfc(case['pw']), 'port': case['port'],
+        exp = {'user': nfc(case['user']), 'pw': nfc(case['pw']), 'port': case['port'],
                'parts': [nfc(p) for p in case['parts']],
                'query': [[nfc(kk), None if vv is None else nfc(vv)] for kk, vv in case['query']],
                'frag': nfc(case['frag'])}
-        if case['host'].isascii():
-            exp['host'] = case['host']
         for key, want in exp.items():
             if d1[key] != want:
                 return Failure('roundtrip', '%s: put %r, got %r back from %r' % (key, want, d1[key], tfull))
+        # scheme and host are not among the texts the statement promises to give back exactly; they are the premise
+        # ("a valid scheme, host and port") and the neighbours nothing may leak into: demanded up to the
+        # case-insensitivity RFC 3986 6.2.2.1 gives them (a parser may normalise them to lower case)
+        if d1['scheme'].lower() != case['scheme'].lower():
+            return Failure('roundtrip', 'scheme: put %r, got %r back from %r' % (case['scheme'], d1['scheme'], tfull))
+        if case['host'].isascii() and d1['host'].lower() != case['host'].lower():
+            return Failure('roundtrip', 'host: put %r, got %r back from %r' % (case['host'], d1['host'], tfull))
         if not case['host'].isascii() and not d1['host']:
             return Failure('roundtrip', 'host lost in %r' % (tfull,))
         if d1['tfull'] != tfull:
-            return Failure('fixed_full', 'to_text(True) %r re-parsed renders %r' % (tfull, d1['tfull']))
-        return self.check_min_fixed(d0, d2)
+            # tfull is the rendering of a BUILT object; the clause is "rendering of a PARSED URL, parsed and rendered
+            # again, gives the same text": judge the rendering of the parsed-back URL
+            re_ = d1.get('re')
+            if re_ is None or 'exc' in re_ or re_['tfull'] != d1['tfull']:
+                return Failure('fixed_full', 'URL(%r) renders %r, which re-parsed renders %r' % (
+                    tfull, d1['tfull'], re_ and (re_.get('tfull') or re_.get('exc'))))
+        return self.check_min_fixed(d0, d2, built=True)
 
-    def check_min_fixed(self, d0, d2):
+    def check_min_fixed(self, d0, d2, built=False):
         comps = [d0['user'], d0['pw'], d0['host'], d0['frag']] + d0['parts'] + [x for kv in d0['query'] for x in kv if x]
         self.stats['fixed_full_checked'] = self.stats.get('fixed_full_checked', 0) + 1
         if any('%' in c for c in comps):
@@ -1437,6 +1684,11 @@ class C06(Property):
         if d2 is None or 'exc' in d2:
             return Failure('fixed_min', 'URL(%r) (minimal rendering) raised %s' % (tmin, d2 and d2['exc']))
         if d2['tmin'] != tmin:
+            if built:   # d0 was built, not parsed: the clause speaks of the rendering of the parsed URL d2
+                comps2 = [d2['user'], d2['pw'], d2['host'], d2['frag']] + d2['parts'] + [x for kv in d2['query'] for x in kv if x]
+                re_ = d2.get('re')
+                if not any('%' in c for c in comps2) and re_ is not None and 'exc' not in re_ and re_['tmin'] == d2['tmin']:
+                    return None
             return Failure('fixed_min', 'to_text(False) %r re-parsed renders %r' % (tmin, d2['tmin']))
         return None
 
